@@ -1,6 +1,7 @@
 package main
 
 import (
+	"go/token"
 	"go/types"
 	"sort"
 	"strings"
@@ -15,12 +16,20 @@ import (
 // any callee that does not return its parameter) end the flow. Flows through heap fields are not followed.
 type aliasAn struct {
 	p    *Program
-	summ map[*ssa.Function]map[int]map[int]bool
+	summ map[*ssa.Function]map[int]map[int]aliasRes
 	busy map[*ssa.Function]bool
 }
 
+// aliasRes qualifies "result i may be parameter k": NilErrOnly says that on every return where it is, the function's
+// error result (index ErrIdx) is nil — so a caller that knows the error to be non-nil knows the result is not the
+// parameter (go-ethereum's form of the return-data repair copies only on the err == nil / reverted branch).
+type aliasRes struct {
+	NilErrOnly bool
+	ErrIdx     int
+}
+
 func newAliasAn(p *Program) *aliasAn {
-	return &aliasAn{p: p, summ: map[*ssa.Function]map[int]map[int]bool{}, busy: map[*ssa.Function]bool{}}
+	return &aliasAn{p: p, summ: map[*ssa.Function]map[int]map[int]aliasRes{}, busy: map[*ssa.Function]bool{}}
 }
 
 // callees of a call: the static callee, or the module methods that can stand behind an interface call.
@@ -49,7 +58,7 @@ func (a *aliasAn) callees(cc *ssa.CallCommon) []*ssa.Function {
 }
 
 // paramResults: the result indexes of fn that may alias its pi-th parameter (receiver counted as parameter 0).
-func (a *aliasAn) paramResults(fn *ssa.Function, pi int) map[int]bool {
+func (a *aliasAn) paramResults(fn *ssa.Function, pi int) map[int]aliasRes {
 	if len(fn.Blocks) == 0 || pi >= len(fn.Params) {
 		return nil
 	}
@@ -58,21 +67,30 @@ func (a *aliasAn) paramResults(fn *ssa.Function, pi int) map[int]bool {
 			return r
 		}
 	} else {
-		a.summ[fn] = map[int]map[int]bool{}
+		a.summ[fn] = map[int]map[int]aliasRes{}
 	}
 	if a.busy[fn] {
 		return nil // recursion: the outer computation covers the non-recursive paths
 	}
 	a.busy[fn] = true
-	res := map[int]bool{}
+	res := map[int]aliasRes{}
 	set := a.forward(fn, []ssa.Value{fn.Params[pi]})
+	errIdx := -1
+	if rs := fn.Signature.Results(); rs.Len() > 0 && rs.At(rs.Len()-1).Type().String() == "error" {
+		errIdx = rs.Len() - 1
+	}
 	for _, b := range fn.Blocks {
 		for _, in := range b.Instrs {
 			if r, ok := in.(*ssa.Return); ok {
 				for i, x := range r.Results {
-					if set[x] {
-						res[i] = true
+					if !set[x] {
+						continue
 					}
+					ok := errIdx >= 0 && i != errIdx && a.pairOK(x, r.Results[errIdx], set, map[ssa.Value]bool{})
+					if prev, seen := res[i]; seen {
+						ok = ok && prev.NilErrOnly
+					}
+					res[i] = aliasRes{NilErrOnly: ok, ErrIdx: errIdx}
 				}
 			}
 		}
@@ -80,6 +98,203 @@ func (a *aliasAn) paramResults(fn *ssa.Function, pi int) map[int]bool {
 	a.busy[fn] = false
 	a.summ[fn][pi] = res
 	return res
+}
+
+// pairOK: whenever v is one of the aliased values, e (the error returned or tested together with it) is nil.
+func (a *aliasAn) pairOK(v, e ssa.Value, set map[ssa.Value]bool, seen map[ssa.Value]bool) bool {
+	if !set[v] {
+		return true
+	}
+	if c, ok := e.(*ssa.Const); ok && c.IsNil() {
+		return true
+	}
+	if seen[v] {
+		return true
+	}
+	seen[v] = true
+	switch x := v.(type) {
+	case *ssa.Extract:
+		e2, ok := e.(*ssa.Extract)
+		if !ok || e2.Tuple != x.Tuple {
+			return false
+		}
+		call, ok := x.Tuple.(*ssa.Call)
+		return ok && a.callNilErrOnly(call, x.Index, e2.Index, set)
+	case *ssa.Phi:
+		p2, ok := e.(*ssa.Phi)
+		if !ok || p2.Block() != x.Block() {
+			return false
+		}
+		for k := range x.Edges {
+			if !a.pairOK(x.Edges[k], p2.Edges[k], set, seen) {
+				return false
+			}
+		}
+		return true
+	case *ssa.UnOp:
+		// named results kept in cells (functions with defers): the pair of cells is kept consistent store by store
+		e2, ok := e.(*ssa.UnOp)
+		if !ok || x.Op != token.MUL || e2.Op != token.MUL {
+			return false
+		}
+		c1, ok1 := x.X.(*ssa.Alloc)
+		c2, ok2 := e2.X.(*ssa.Alloc)
+		return ok1 && ok2 && a.cellPairOK(c1, c2, set, seen)
+	}
+	return false
+}
+
+// cellPairOK: the value cell and the error cell of a function are written so that "the value cell holds an aliased
+// value" implies "the error cell holds nil": an aliased value is stored only together with (same block) an error that
+// pairOK accepts, and the error cell is otherwise only set to nil or to itself. Closures may read the cells.
+func (a *aliasAn) cellPairOK(vc, ec *ssa.Alloc, set map[ssa.Value]bool, seen map[ssa.Value]bool) bool {
+	type st struct{ v, e ssa.Value }
+	per := map[*ssa.BasicBlock]*st{}
+	collect := func(cell *ssa.Alloc, isErr bool) bool {
+		refs := cell.Referrers()
+		if refs == nil {
+			return true
+		}
+		for _, u := range *refs {
+			switch x := u.(type) {
+			case *ssa.Store:
+				if x.Addr != cell {
+					return false // the cell's address is stored somewhere
+				}
+				s := per[x.Block()]
+				if s == nil {
+					s = &st{}
+					per[x.Block()] = s
+				}
+				if isErr {
+					s.e = x.Val
+				} else {
+					s.v = x.Val
+				}
+			case *ssa.UnOp:
+			case *ssa.MakeClosure:
+				fn, _ := x.Fn.(*ssa.Function)
+				if fn == nil {
+					return false
+				}
+				for i, b := range x.Bindings {
+					if b != cell {
+						continue
+					}
+					if r := fn.FreeVars[i].Referrers(); r != nil {
+						for _, fu := range *r {
+							if ld, ok := fu.(*ssa.UnOp); !ok || ld.Op != token.MUL {
+								return false // the closure may write the cell
+							}
+						}
+					}
+				}
+			case *ssa.DebugRef:
+			default:
+				return false
+			}
+		}
+		return true
+	}
+	if !collect(vc, false) || !collect(ec, true) {
+		return false
+	}
+	selfLoad := func(v ssa.Value, cell *ssa.Alloc) bool {
+		ld, ok := v.(*ssa.UnOp)
+		return ok && ld.Op == token.MUL && ld.X == cell
+	}
+	isNil := func(v ssa.Value) bool { c, ok := v.(*ssa.Const); return ok && c.IsNil() }
+	for _, s := range per {
+		switch {
+		case s.v != nil && set[s.v] && !selfLoad(s.v, vc):
+			if s.e == nil || !a.pairOK(s.v, s.e, set, seen) {
+				return false
+			}
+		case s.v == nil || selfLoad(s.v, vc):
+			if s.e != nil && !isNil(s.e) && !selfLoad(s.e, ec) {
+				return false
+			}
+		}
+	}
+	return true
+}
+
+// callNilErrOnly: every way result ri of the call can be one of its aliased arguments comes with a nil result ei.
+func (a *aliasAn) callNilErrOnly(call *ssa.Call, ri, ei int, set map[ssa.Value]bool) bool {
+	cc := call.Common()
+	if _, ok := cc.Value.(*ssa.Builtin); ok {
+		return false
+	}
+	var args []ssa.Value
+	if cc.IsInvoke() {
+		args = append(args, cc.Value)
+	}
+	args = append(args, cc.Args...)
+	for k, arg := range args {
+		if !set[arg] {
+			continue
+		}
+		for _, cal := range a.callees(cc) {
+			if r, ok := a.paramResults(cal, k)[ri]; ok && !(r.NilErrOnly && r.ErrIdx == ei) {
+				return false
+			}
+		}
+	}
+	return true
+}
+
+// knownNonNil: on every path into block b the value e was tested and found non-nil (b is dominated by the failing
+// side of `e == nil` or the passing side of `e != nil`).
+func knownNonNil(e ssa.Value, b *ssa.BasicBlock) bool {
+	for d := b; d != nil; d = d.Idom() {
+		if len(d.Preds) != 1 {
+			continue
+		}
+		p := d.Preds[0]
+		iff, ok := p.Instrs[len(p.Instrs)-1].(*ssa.If)
+		if !ok || len(p.Succs) != 2 || p.Succs[0] == p.Succs[1] {
+			continue
+		}
+		bo, ok := iff.Cond.(*ssa.BinOp)
+		if !ok {
+			continue
+		}
+		isNil := func(v ssa.Value) bool { c, ok := v.(*ssa.Const); return ok && c.IsNil() }
+		if !((bo.X == e && isNil(bo.Y)) || (bo.Y == e && isNil(bo.X))) {
+			continue
+		}
+		if (bo.Op == token.EQL && p.Succs[1] == d) || (bo.Op == token.NEQ && p.Succs[0] == d) {
+			return true
+		}
+	}
+	return false
+}
+
+// infeasibleEdge: v flows into a phi along the edge from pred, but v can only be an aliased argument of its call when
+// that call's error is nil, and on this edge the error is known to be non-nil.
+func (a *aliasAn) infeasibleEdge(v ssa.Value, pred *ssa.BasicBlock, set map[ssa.Value]bool) bool {
+	ex, ok := v.(*ssa.Extract)
+	if !ok {
+		return false
+	}
+	call, ok := ex.Tuple.(*ssa.Call)
+	if !ok {
+		return false
+	}
+	refs := call.Referrers()
+	if refs == nil {
+		return false
+	}
+	for _, u := range *refs {
+		e, ok := u.(*ssa.Extract)
+		if !ok || e.Index == ex.Index || e.Type().String() != "error" {
+			continue
+		}
+		if a.callNilErrOnly(call, ex.Index, e.Index, set) && knownNonNil(e, pred) {
+			return true
+		}
+	}
+	return false
 }
 
 // forward returns every value of fn that may share its backing array with one of the seeds.
@@ -109,7 +324,12 @@ func (a *aliasAn) forward(fn *ssa.Function, seeds []ssa.Value) map[ssa.Value]boo
 					add(x)
 				}
 			case *ssa.Phi:
-				add(x)
+				for k, e := range x.Edges {
+					if e == v && !a.infeasibleEdge(v, x.Block().Preds[k], set) {
+						add(x)
+						break
+					}
+				}
 			case *ssa.ChangeType:
 				add(x)
 			case *ssa.Store:
